@@ -1,5 +1,8 @@
 import RpmVerif.Lemmas.Sign
+import RpmVerif.Lemmas.SignE
 import RpmVerif.Props.C16
+import RpmVerif.Props.C17
+import RpmVerif.Props.C04
 /-!
 # C10 — after any signing history a package verifies with exactly the last signer's key
 
@@ -24,6 +27,33 @@ For EVERY signature scheme `S` satisfying the named hypotheses (`Correct`, `Bind
 
 What is assumed is explicit: the `SigScheme` laws, `SigRecsOk` (base64 text is NUL-free UTF-8, sizes fit the
 header format), `PayloadDigestOk p0`.
+
+## The signing side with its failure and panic paths (`Model/SignE.lean`; gaps G4, G7, G8 of notes/COVERAGE.md)
+
+* `legacyTagOf_range`   every arm of the algorithm `match` in `SignatureHeaderBuilder::build` (scraped table) selects
+                        RPMSIGTAG_RSA or RPMSIGTAG_DSA; `signer_algs_subset`: a key `Signer::new` accepts is stored under
+                        an `AlgorithmType` that converts back to the key's algorithm, and that algorithm has an arm in
+                        `build` (no `UnsupportedPGPKeyType` after a successful `Signer::new`); `signer_tag_total`: the same
+                        for EVERY `AlgorithmType`; `verifier_accepts_signer_keys`. `legacyOk_discharged`: `LegacyOk` follows
+                        from `AlgOk` (signatures parse, their algorithm selects the key's tag) — all theorems above have
+                        `_discharged` forms taking `AlgOk` instead.
+* `config_one_issuer`, `config_created_eq`, `config_one_fingerprint`, `timestamp_opt_total`, `pgp_signer_sign`
+                        the `SignatureConfig` `pgp::Signer::sign` assembles: exactly one Issuer and one IssuerFingerprint
+                        sub-packet (the key's), creation time = the `Timestamp`, no unwrap panic for any `u32`;
+                        `pgp_issuerOk`, `pgp_legacyOk`, `pgp_algOk`: for a `PgpScheme` (only `sealSig` / `parse` abstract)
+                        `IssuerOk`, `LegacyOk`, `AlgOk` are THEOREMS (given `ParseSeal`: a written packet reads back);
+                        `pgp_history_verify` / `pgp_history_keyids`: the main statements with nothing assumed but
+                        `ParseSeal`, `Correct`, `Binds`, `B64` and the size conditions.
+* `sign_success_eq`     on the success path `sign_with_timestamp` (`signOpE`) IS `signOp`; `sign_outcomes`: every way out;
+  `sign_fail_unchanged` an `Err` (signer refuses, `build` finds no signature packet / an unsupported algorithm) leaves the
+                        package exactly as it was; `sign_ok_frame`: success replaces the signature header only;
+  `sign_panics_iff`     it panics exactly for a `SystemTime` / `DateTime` outside 0 ≤ t < 2³² (the defect class of the known
+                        finding `C17 class=timestamp-setter-panic`, here on `Package`) — BEFORE the signer is consulted;
+  `sign_now_eq`, `sign_now_panics_iff`   `sign(s)` = `sign_with_timestamp(s, now)`; `clear_total`: `clear_signatures` cannot fail.
+* `runF_eq_run`         a history containing failed signing attempts (refusing signers, foreign signers whose bytes `build`
+                        turns down) is the history of its effective operations — from ANY package; `runF_failed_only`;
+                        `historyF_*`: every history theorem for such histories; `runF_no_panic`, `runF_panics_at`: a history
+                        panics exactly at its first out-of-range timestamp.
 -/
 namespace RpmVerif.C10
 open RpmVerif.Hdr RpmVerif.Gen RpmVerif.Digest RpmVerif.Sign
@@ -351,6 +381,430 @@ theorem history_legacy {p0 p : Package} (hl : S.LegacyOk) (wf : MetadataWF p0.md
   cases h
   exact signed_legacy sha256 hl k t _
 
+/-! ## the signing side with its failure and panic paths (G4, G7, G8) -/
+
+section signing_side
+open RpmVerif.Gen.SigAlgs RpmVerif.AddData
+variable {pubAlg : Bytes → Option Nat}
+
+/-! ### G7: the algorithm tables of the source -/
+
+/-- **every algorithm `SignatureHeaderBuilder::build` accepts gets the RSA or the DSA legacy tag** (all algorithm
+numbers; the table is scraped from the `match`) -/
+theorem legacyTagOf_range {a t : Nat} (h : legacyTagOf a = some t) :
+    t = SigTag.RPMSIGTAG_RSA ∨ t = SigTag.RPMSIGTAG_DSA := legacyTagOf_mem_range h
+
+/-- the conversion `AlgorithmType → PublicKeyAlgorithm` has an arm for every variant -/
+theorem toPgp_total (a : AlgorithmType) : toPgpArms.lookup a = some (toPgp a) := toPgp_lookup a
+
+/-- **whatever `AlgorithmType` a signer stores, `build` has an arm for the algorithm its signatures carry** -/
+theorem signer_tag_total (a : AlgorithmType) :
+    legacyTagOf (toPgp a) = some (signerLegacyTag a) ∧
+    (signerLegacyTag a = SigTag.RPMSIGTAG_RSA ∨ signerLegacyTag a = SigTag.RPMSIGTAG_DSA) :=
+  ⟨signerLegacyTag_some a, signerLegacyTag_range a⟩
+
+/-- **a key `Signer::new` accepts** is stored under the `AlgorithmType` that converts back to the key's own
+algorithm, and `build` never answers `UnsupportedPGPKeyType` for it -/
+theorem signer_algs_subset {n : Nat} {a : AlgorithmType} (h : signerNew n = .ok a) :
+    toPgp a = n ∧ ∃ t, legacyTagOf (toPgp a) = some t := by
+  have key : ∀ p ∈ signerNewArms, toPgp p.2 = p.1 := by decide
+  unfold signerNew at h
+  split at h
+  · rename_i a' hl
+    cases h
+    exact ⟨key _ (lookup_mem hl), _, signerLegacyTag_some a⟩
+  · cases h
+
+/-- the verifier loads every key a signer can be made from, under the same `AlgorithmType` -/
+theorem verifier_accepts_signer_keys {n : Nat} {a : AlgorithmType} (h : signerNew n = .ok a) : verifierLoad n = .ok a := by
+  have key : ∀ p ∈ signerNewArms, verifierLoadArms.lookup p.1 = some p.2 := by decide
+  unfold signerNew at h
+  split at h
+  · rename_i a' hl
+    cases h
+    simp only [verifierLoad, key _ (lookup_mem hl)]
+  · cases h
+
+/-- the refusals are errors, never panics -/
+theorem signerNew_total (n : Nat) : (signerNew n).isPanic = false ∧ (verifierLoad n).isPanic = false := by
+  unfold signerNew verifierLoad
+  constructor <;> split <;> rfl
+
+/-- **`LegacyOk` is not an assumption any more**: it follows from the table once the scheme's signatures parse and
+carry the algorithm that selects the key's tag -/
+theorem legacyOk_discharged (ha : AlgOk S pubAlg) : S.LegacyOk := legacyOk_of_algOk ha
+
+/-! ### G8: the configuration `pgp::Signer::sign` assembles -/
+
+/-- **exactly one Issuer sub-packet, the signing key's** -/
+theorem config_one_issuer (a : AlgorithmType) (keyId fp : Bytes) (t : Int) : (mkConfig a keyId fp t).issuers = [keyId] :=
+  mkConfig_issuers a keyId fp t
+
+/-- exactly one IssuerFingerprint sub-packet -/
+theorem config_one_fingerprint (a : AlgorithmType) (keyId fp : Bytes) (t : Int) :
+    (mkConfig a keyId fp t).fingerprints = [fp] := mkConfig_fingerprints a keyId fp t
+
+/-- **the creation time of the signature is the timestamp handed in** -/
+theorem config_created_eq (a : AlgorithmType) (keyId fp : Bytes) (t : Int) : (mkConfig a keyId fp t).created = some t :=
+  mkConfig_created a keyId fp t
+
+/-- **`Utc.timestamp_opt(t, 0).unwrap()` cannot panic**: every `u32` is a representable instant -/
+theorem timestamp_opt_total {t : Nat} (h : t < 4294967296) : signerCreated t = .ok (t : Int) := by
+  simp only [signerCreated, chronoTimestampOpt_u32 h]
+
+/-- `<pgp::Signer as Signing>::sign` is the `sign` of the derived scheme, for every `Timestamp` -/
+theorem pgp_signer_sign (P : PgpScheme) (k : P.Key) (m : Bytes) {t : Nat} (h : t < 4294967296) :
+    P.signerSign k m t = .ok (P.toSigScheme.sign k m t) := by
+  simp only [PgpScheme.signerSign, timestamp_opt_total h, Out.bind_ok]
+  rfl
+
+/-- **`IssuerOk` is a theorem** for a scheme whose signatures are sealed configurations -/
+theorem pgp_issuerOk (P : PgpScheme) (hp : P.ParseSeal) : P.toSigScheme.IssuerOk := P.issuerOk hp
+theorem pgp_legacyOk (P : PgpScheme) : P.toSigScheme.LegacyOk := P.legacyOk
+theorem pgp_algOk (P : PgpScheme) (hp : P.ParseSeal) : AlgOk P.toSigScheme P.pubAlg := P.algOk hp
+
+/-! ### G4: one call of `sign_with_timestamp` / `sign` / `clear_signatures` -/
+
+/-- the instants `Timestamp::now()` can convert -/
+def ClockInRange (c : Timestamp.Instant) : Prop := 0 ≤ c.secs ∧ c.secs < 4294967296
+
+theorem tsOk_iff (t : TsArg) : TsOk t ↔ C17.TsInRange t := by
+  constructor
+  · rintro ⟨n, hn⟩
+    apply Classical.byContradiction
+    intro h
+    have := (C17.timestamp_setter_panics_iff t).mpr h
+    rw [hn] at this; cases this
+  · intro h
+    cases t with
+    | secs n => exact ⟨n, rfl⟩
+    | src s => exact ⟨_, C17.timestamp_setter_ok s h⟩
+
+theorem now_ok {c : Timestamp.Instant} (h : ClockInRange c) : Timestamp.now c = .ok c.secs.toNat := by
+  have := (C20.ts_exact_systemtime c).1 h.1 h.2
+  simp only [Timestamp.now, this]; rfl
+
+theorem nowOk_iff (c : Timestamp.Instant) : NowOk c ↔ ClockInRange c := by
+  constructor
+  · rintro ⟨n, hn⟩
+    apply Classical.byContradiction
+    intro h
+    have h3 := C20.ts_exact_systemtime c
+    by_cases h0 : c.secs < 0
+    · have := h3.2.1 h0
+      simp [Timestamp.now, this] at hn
+    · have : 4294967296 ≤ c.secs := by
+        unfold ClockInRange at h; omega
+      have := h3.2.2 this
+      simp [Timestamp.now, this] at hn
+  · intro h; exact ⟨_, now_ok h⟩
+
+/-- **on the success path `sign_with_timestamp` is `signOp`**: a usable key, a timestamp that converts -/
+theorem sign_success_eq (ha : AlgOk S pubAlg) {t : TsArg} {n : Nat} (ht : timestampSetter t = .ok n) (k : S.Key)
+    (p : Package) :
+    signOpE S pubAlg sha256 ((SignerE.key k).sign S) t p = .ok (signOp S sha256 k n p) := signOpE_key ha ht k p
+
+/-- the same for any `Signing` implementation that answers what key `k` would -/
+theorem sign_success_eq_any (ha : AlgOk S pubAlg) {t : TsArg} {n : Nat} (ht : timestampSetter t = .ok n) (k : S.Key)
+    (p : Package) (signer : Bytes → Nat → Out Bytes)
+    (hs : signer (writeHeader p.md.header) n = .ok (S.sign k (writeHeader p.md.header) n)) :
+    signOpE S pubAlg sha256 signer t p = .ok (signOp S sha256 k n p) := by
+  rw [← signOpE_key (sha256 := sha256) ha ht k p]
+  simp only [signOpE, ht, Out.bind_ok, hs, SignerE.sign]
+
+/-- **every way out of `sign_with_timestamp`**, in the order the code takes them -/
+theorem sign_outcomes (signer : Bytes → Nat → Out Bytes) (t : TsArg) (p : Package) :
+    (∃ s, timestampSetter t = .panic s ∧ signOpE S pubAlg sha256 signer t p = .panic s) ∨
+    (∃ n, timestampSetter t = .ok n ∧
+      ((∃ c, signer (writeHeader p.md.header) n = .err c ∧ signOpE S pubAlg sha256 signer t p = .err c) ∨
+       (∃ s, signer (writeHeader p.md.header) n = .panic s ∧ signOpE S pubAlg sha256 signer t p = .panic s) ∨
+       (∃ sig, signer (writeHeader p.md.header) n = .ok sig ∧
+         ((pubAlg sig = none ∧ signOpE S pubAlg sha256 signer t p = .err "NoSignatureFound") ∨
+          (∃ a, pubAlg sig = some a ∧ legacyTagOf a = none ∧
+            signOpE S pubAlg sha256 signer t p = .err "UnsupportedPGPKeyType") ∨
+          (∃ a tag, pubAlg sig = some a ∧ legacyTagOf a = some tag ∧
+            signOpE S pubAlg sha256 signer t p = .ok ⟨⟨p.md.lead,
+              Bld.signatureHeader [(tag, sig, S.b64enc sig)] (some (shaHex sha256 (writeHeader p.md.header))),
+              p.md.header⟩, p.content⟩))))) := by
+  cases ht : timestampSetter t with
+  | panic s => left; exact ⟨s, rfl, by simp only [signOpE, ht, Out.bind_panic]⟩
+  | err c =>
+    -- the setter never answers `Err`: a failed conversion is unwrapped
+    exfalso
+    cases t with
+    | secs n => cases ht
+    | src s => simp only [timestampSetter] at ht; split at ht <;> cases ht
+  | ok n =>
+    right
+    refine ⟨n, rfl, ?_⟩
+    cases hs : signer (writeHeader p.md.header) n with
+    | err c => left; exact ⟨c, rfl, by simp only [signOpE, ht, Out.bind_ok, hs, Out.bind_err]⟩
+    | panic s => right; left; exact ⟨s, rfl, by simp only [signOpE, ht, Out.bind_ok, hs, Out.bind_panic]⟩
+    | ok sig =>
+      right; right
+      refine ⟨sig, rfl, ?_⟩
+      cases hp : pubAlg sig with
+      | none =>
+        left
+        exact ⟨rfl, by simp only [signOpE, ht, Out.bind_ok, hs, sigBuild_one_nosig S.b64enc _ hp, Out.bind_err]⟩
+      | some a =>
+        right
+        cases hl : legacyTagOf a with
+        | none =>
+          left
+          exact ⟨a, rfl, hl, by
+            simp only [signOpE, ht, Out.bind_ok, hs, sigBuild_one_unsupported S.b64enc _ hp hl, Out.bind_err]⟩
+        | some tag =>
+          right
+          exact ⟨a, tag, rfl, hl, by
+            simp only [signOpE, ht, Out.bind_ok, hs, sigBuild_one_ok S.b64enc _ hp hl]; rfl⟩
+
+/-- **a failed signing leaves the package exactly as it was** (`&mut self` view: the package afterwards and the
+result; a caller that goes on after the `Err` goes on with the same package) -/
+theorem sign_fail_unchanged (signer : Bytes → Nat → Out Bytes) (t : TsArg) (p : Package) (c : String)
+    (h : signOpE S pubAlg sha256 signer t p = .err c) :
+    asMut p (signOpE S pubAlg sha256 signer t p) = (p, .err c) ∧
+    settle p (signOpE S pubAlg sha256 signer t p) = .ok p := by
+  rw [h]; exact ⟨rfl, rfl⟩
+
+/-- … and a successful one replaces the signature header and nothing else -/
+theorem sign_ok_frame (signer : Bytes → Nat → Out Bytes) (t : TsArg) (p q : Package)
+    (h : signOpE S pubAlg sha256 signer t p = .ok q) :
+    q.md.lead = p.md.lead ∧ q.md.header = p.md.header ∧ q.content = p.content := by
+  simp only [signOpE, Out.bind_eq_ok, Out.pure_eq, Out.ok.injEq] at h
+  obtain ⟨_, _, _, _, _, _, rfl⟩ := h
+  exact ⟨rfl, rfl, rfl⟩
+
+/-- **`sign_with_timestamp` panics exactly when it is given a `SystemTime` / `DateTime` before 1970 or from
+2106-02-07T06:28:16Z on** — whatever the signer (that does not panic itself) would have answered -/
+theorem sign_panics_iff (signer : Bytes → Nat → Out Bytes) (hsg : ∀ m n, (signer m n).isPanic = false) (t : TsArg)
+    (p : Package) :
+    (signOpE S pubAlg sha256 signer t p).isPanic = true ↔ ¬ C17.TsInRange t := by
+  rw [← C17.timestamp_setter_panics_iff]
+  unfold signOpE
+  cases ht : timestampSetter t with
+  | ok n =>
+    have h : ((signer (writeHeader p.md.header) n >>= fun sig =>
+        sigBuilderBuild pubAlg S.b64enc [sig] (some (shaHex sha256 (writeHeader p.md.header))) >>= fun h =>
+          (pure ⟨⟨p.md.lead, h, p.md.header⟩, p.content⟩ : Out Package))).isPanic = false :=
+      Out.bind_not_panic (hsg _ _) (fun sig _ => Out.bind_not_panic (sigBuilderBuild_not_panic _ _ _) (fun _ _ => rfl))
+    simp only [Out.bind_ok]
+    rw [h]; simp [Out.isPanic]
+  | err c => simp [Out.isPanic]
+  | panic s => simp [Out.isPanic]
+
+/-- **`sign(s)` is `sign_with_timestamp(s, now)`**: for a clock inside the range it is the call with the clock's
+whole seconds — the same as handing over the `SystemTime` itself -/
+theorem sign_now_eq (signer : Bytes → Nat → Out Bytes) {c : Timestamp.Instant} (h : ClockInRange c) (p : Package) :
+    signNowE S pubAlg sha256 signer c p = signOpE S pubAlg sha256 signer (.secs c.secs.toNat) p ∧
+    signNowE S pubAlg sha256 signer c p = signOpE S pubAlg sha256 signer (.src (.sys c)) p := by
+  have h1 := signNowE_ok (S := S) (pubAlg := pubAlg) (sha256 := sha256) (now_ok h) signer p
+  refine ⟨h1, ?_⟩
+  rw [h1]
+  have : timestampSetter (.src (.sys c)) = .ok c.secs.toNat := C17.timestamp_setter_ok (.sys c) h
+  simp only [signOpE, this]
+  rfl
+
+/-- … and outside the range `Timestamp::now()` panics before anything else happens -/
+theorem sign_now_panics_iff (signer : Bytes → Nat → Out Bytes) (hsg : ∀ m n, (signer m n).isPanic = false)
+    (c : Timestamp.Instant) (p : Package) :
+    (signNowE S pubAlg sha256 signer c p).isPanic = true ↔ ¬ ClockInRange c := by
+  constructor
+  · intro hp hc
+    rw [(sign_now_eq signer hc p).1, sign_panics_iff signer hsg] at hp
+    exact hp trivial
+  · intro hc
+    have h3 := C20.ts_exact_systemtime c
+    by_cases h0 : c.secs < 0
+    · have := h3.2.1 h0
+      simp [signNowE, Timestamp.now, this, Timestamp.Conv.toOut, Out.isPanic]
+    · have : 4294967296 ≤ c.secs := by unfold ClockInRange at hc; omega
+      have := h3.2.2 this
+      simp [signNowE, Timestamp.now, this, Timestamp.Conv.toOut, Out.isPanic]
+
+/-- **`clear_signatures` cannot fail**: its `build()?` parses no signature -/
+theorem clear_total (b64enc : Bytes → Bytes) (p : Package) :
+    clearOpE pubAlg b64enc sha256 p = .ok (clearOp sha256 p) := rfl
+
+/-! ### histories with failing signing attempts -/
+
+/-- **a history with failed signing attempts is the history of its effective operations** — from ANY package: refused
+attempts (`Err` from the signer, bytes `build` turns down) change nothing, successful ones are `signOp` -/
+theorem runF_eq_run (ha : AlgOk S pubAlg) (ops : List (OpF S.Key)) (hq : ∀ o ∈ ops, o.Quiet pubAlg) (p : Package) :
+    runF S pubAlg sha256 ops p = run S sha256 (effectiveOps ops) p := runF_quiet ha ops hq p
+
+/-- a history of failed attempts only ends with the package it started from -/
+theorem runF_failed_only (ha : AlgOk S pubAlg) (ops : List (OpF S.Key)) (hq : ∀ o ∈ ops, o.Quiet pubAlg)
+    (he : effectiveOps ops = []) (p : Package) : runF S pubAlg sha256 ops p = .ok p := by
+  rw [runF_eq_run ha ops hq, he]; rfl
+
+/-- the operations that panic: an out-of-range timestamp argument / clock -/
+def Panics {K : Type} : OpF K → Prop
+  | .sign _ t => ¬ C17.TsInRange t
+  | .signNow _ c => ¬ ClockInRange c
+  | _ => False
+
+theorem stepF_isPanic_iff (o : OpF S.Key) (p : Package) :
+    (stepF S pubAlg sha256 o p).isPanic = true ↔ Panics o := by
+  have settle_panic : ∀ r : Out Package, (settle p r).isPanic = r.isPanic := fun r => by cases r <;> rfl
+  cases o with
+  | writeParse =>
+    have h : (stepF S pubAlg sha256 .writeParse p).isPanic = false := C04.parsePackage_total _
+    rw [h]; exact ⟨fun h => (by cases h), fun h => h.elim⟩
+  | clear =>
+    have h : (stepF S pubAlg sha256 .clear p).isPanic = false := rfl
+    rw [h]; exact ⟨fun h => (by cases h), fun h => h.elim⟩
+  | sign sg t =>
+    simp only [stepF, attemptF, settle_panic, Panics]
+    exact sign_panics_iff _ (SignerE.sign_not_panic sg) t p
+  | signNow sg c =>
+    simp only [stepF, attemptF, settle_panic, Panics]
+    exact sign_now_panics_iff _ (SignerE.sign_not_panic sg) c p
+
+/-- **no history panics unless a timestamp is out of range** (any start package, any signers) -/
+theorem runF_no_panic (ops : List (OpF S.Key)) (h : ∀ o ∈ ops, ¬ Panics o) (p : Package) :
+    (runF S pubAlg sha256 ops p).isPanic = false := by
+  induction ops generalizing p with
+  | nil => rfl
+  | cons o os ih =>
+    simp only [runF]
+    refine Out.bind_not_panic ?_ (fun q _ => ih (fun x hx => h x (List.mem_cons_of_mem _ hx)) q)
+    cases hp : (stepF S pubAlg sha256 o p).isPanic with
+    | false => rfl
+    | true => exact absurd ((stepF_isPanic_iff o p).mp hp) (h o (List.mem_cons_self ..))
+
+/-- **a history panics at its first out-of-range timestamp**: quiet operations before it, from a well-formed start -/
+theorem runF_panics_at {p0 : Package} (ha : AlgOk S pubAlg) (wf : MetadataWF p0.md)
+    (ok : SigRecsOk S sha256 (writeHeader p0.md.header)) (pre : List (OpF S.Key)) (hq : ∀ o ∈ pre, o.Quiet pubAlg)
+    (o : OpF S.Key) (ho : Panics o) (rest : List (OpF S.Key)) :
+    (runF S pubAlg sha256 (pre ++ o :: rest) p0).isPanic = true := by
+  rw [runF_append, runF_eq_run ha pre hq, run_total (legacyOk_of_algOk ha) wf ok]
+  simp only [Out.bind_ok, runF]
+  have := (stepF_isPanic_iff (S := S) (pubAlg := pubAlg) (sha256 := sha256) o
+    (stateOf S sha256 p0 (stateAfter .initial (effectiveOps pre)))).mpr ho
+  cases hs : stepF S pubAlg sha256 o (stateOf S sha256 p0 (stateAfter .initial (effectiveOps pre))) with
+  | panic s => rfl
+  | ok q => rw [hs] at this; cases this
+  | err c => rw [hs] at this; cases this
+
+/-! the history theorems, for histories with failing attempts (`AlgOk` in place of `LegacyOk`) -/
+
+theorem historyF_total {p0 : Package} (ha : AlgOk S pubAlg) (wf : MetadataWF p0.md)
+    (ok : SigRecsOk S sha256 (writeHeader p0.md.header)) (ops : List (OpF S.Key)) (hq : ∀ o ∈ ops, o.Quiet pubAlg) :
+    runF S pubAlg sha256 ops p0 = .ok (stateOf S sha256 p0 (stateAfter .initial (effectiveOps ops))) := by
+  rw [runF_eq_run ha ops hq]; exact run_total (legacyOk_of_algOk ha) wf ok _
+
+theorem historyF_bytes {p0 p : Package} (ha : AlgOk S pubAlg) (wf : MetadataWF p0.md)
+    (ok : SigRecsOk S sha256 (writeHeader p0.md.header)) (ops : List (OpF S.Key)) (hq : ∀ o ∈ ops, o.Quiet pubAlg)
+    (h : runF S pubAlg sha256 ops p0 = .ok p) :
+    writeHeader p.md.header = writeHeader p0.md.header ∧ p.content = p0.content
+    ∧ p.md.header = p0.md.header ∧ p.md.lead = p0.md.lead := by
+  rw [runF_eq_run ha ops hq] at h; exact history_bytes (legacyOk_of_algOk ha) wf ok _ h
+
+theorem historyF_writeParse {p0 p : Package} (ha : AlgOk S pubAlg) (wf : MetadataWF p0.md)
+    (ok : SigRecsOk S sha256 (writeHeader p0.md.header)) (ops : List (OpF S.Key)) (hq : ∀ o ∈ ops, o.Quiet pubAlg)
+    (h : runF S pubAlg sha256 ops p0 = .ok p) : writeParse p = .ok p := by
+  rw [runF_eq_run ha ops hq] at h; exact history_writeParse (legacyOk_of_algOk ha) wf ok _ h
+
+theorem historyF_digests {p0 p : Package} (ha : AlgOk S pubAlg) (wf : MetadataWF p0.md)
+    (ok : SigRecsOk S sha256 (writeHeader p0.md.header)) (hp : PayloadDigestOk sha256 p0) (ops : List (OpF S.Key))
+    (hq : ∀ o ∈ ops, o.Quiet pubAlg) (hs : stateAfter .initial (effectiveOps ops) ≠ .initial)
+    (h : runF S pubAlg sha256 ops p0 = .ok p) : verifyDigests md5 sha1 sha256 p = .ok () := by
+  rw [runF_eq_run ha ops hq] at h; exact history_digests (legacyOk_of_algOk ha) wf ok hp _ hs h
+
+/-- **exactly the key of the last SUCCESSFUL signing verifies** — refused attempts in between do not count -/
+theorem historyF_verify {p0 p : Package} (ha : AlgOk S pubAlg) (hc : S.Correct) (hbind : S.Binds) (hb64 : S.B64)
+    (wf : MetadataWF p0.md) (ok : SigRecsOk S sha256 (writeHeader p0.md.header)) (hp : PayloadDigestOk sha256 p0)
+    (ops : List (OpF S.Key)) (hq : ∀ o ∈ ops, o.Quiet pubAlg) (k : S.Key) (hs : lastSigner (effectiveOps ops) = some k)
+    (h : runF S pubAlg sha256 ops p0 = .ok p) (k' : S.Key) :
+    verifyWith S md5 sha1 sha256 k' p = .ok () ↔ k' = k := by
+  rw [runF_eq_run ha ops hq] at h; exact history_verify (legacyOk_of_algOk ha) hc hbind hb64 wf ok hp _ k hs h k'
+
+theorem historyF_verify_none {p0 p : Package} (ha : AlgOk S pubAlg) (wf : MetadataWF p0.md)
+    (ok : SigRecsOk S sha256 (writeHeader p0.md.header)) (hu : Unsigned p0.md.signature)
+    (ops : List (OpF S.Key)) (hq : ∀ o ∈ ops, o.Quiet pubAlg) (hs : lastSigner (effectiveOps ops) = none)
+    (h : runF S pubAlg sha256 ops p0 = .ok p) (k' : S.Key) : verifyWith S md5 sha1 sha256 k' p ≠ .ok () := by
+  rw [runF_eq_run ha ops hq] at h; exact history_verify_none (legacyOk_of_algOk ha) wf ok hu _ hs h k'
+
+theorem historyF_keyids {p0 p : Package} (ha : AlgOk S pubAlg) (hi : S.IssuerOk) (hb64 : S.B64)
+    (wf : MetadataWF p0.md) (ok : SigRecsOk S sha256 (writeHeader p0.md.header))
+    (ops : List (OpF S.Key)) (hq : ∀ o ∈ ops, o.Quiet pubAlg) (k : S.Key) (hs : lastSigner (effectiveOps ops) = some k)
+    (h : runF S pubAlg sha256 ops p0 = .ok p) : keyIds S p = .ok [S.keyId k] := by
+  rw [runF_eq_run ha ops hq] at h; exact history_keyids (legacyOk_of_algOk ha) hi hb64 wf ok _ k hs h
+
+theorem historyF_legacy {p0 p : Package} (ha : AlgOk S pubAlg) (wf : MetadataWF p0.md)
+    (ok : SigRecsOk S sha256 (writeHeader p0.md.header)) (ops : List (OpF S.Key)) (hq : ∀ o ∈ ops, o.Quiet pubAlg)
+    (k : S.Key) (t : Nat) (hs : stateAfter .initial (effectiveOps ops) = .signed k t)
+    (h : runF S pubAlg sha256 ops p0 = .ok p) :
+    getBinary p.md.signature (S.legacyTag k) = .ok (S.sign k (writeHeader p0.md.header) t) ∧
+    (S.legacyTag k = SigTag.RPMSIGTAG_RSA ∨ S.legacyTag k = SigTag.RPMSIGTAG_DSA) := by
+  rw [runF_eq_run ha ops hq] at h
+  exact ⟨history_legacy (legacyOk_of_algOk ha) wf ok _ k t hs h, legacyOk_of_algOk ha k⟩
+
+/-! the original theorems with `LegacyOk` discharged (`AlgOk` is a statement about the scheme's signatures and the
+SCRAPED table, not about the range of tags) -/
+
+theorem run_total_discharged {p0 : Package} (ha : AlgOk S pubAlg) (wf : MetadataWF p0.md)
+    (ok : SigRecsOk S sha256 (writeHeader p0.md.header)) (ops : List (Op S.Key)) :
+    run S sha256 ops p0 = .ok (stateOf S sha256 p0 (stateAfter .initial ops)) :=
+  run_total (legacyOk_of_algOk ha) wf ok ops
+
+theorem history_bytes_discharged {p0 p : Package} (ha : AlgOk S pubAlg) (wf : MetadataWF p0.md)
+    (ok : SigRecsOk S sha256 (writeHeader p0.md.header)) (ops : List (Op S.Key)) (h : run S sha256 ops p0 = .ok p) :
+    writeHeader p.md.header = writeHeader p0.md.header ∧ p.content = p0.content
+    ∧ p.md.header = p0.md.header ∧ p.md.lead = p0.md.lead := history_bytes (legacyOk_of_algOk ha) wf ok ops h
+
+theorem history_digests_discharged {p0 p : Package} (ha : AlgOk S pubAlg) (wf : MetadataWF p0.md)
+    (ok : SigRecsOk S sha256 (writeHeader p0.md.header)) (hp : PayloadDigestOk sha256 p0) (ops : List (Op S.Key))
+    (hs : stateAfter .initial ops ≠ .initial) (h : run S sha256 ops p0 = .ok p) :
+    verifyDigests md5 sha1 sha256 p = .ok () := history_digests (legacyOk_of_algOk ha) wf ok hp ops hs h
+
+theorem history_verify_discharged {p0 p : Package} (ha : AlgOk S pubAlg) (hc : S.Correct) (hbind : S.Binds) (hb64 : S.B64)
+    (wf : MetadataWF p0.md) (ok : SigRecsOk S sha256 (writeHeader p0.md.header)) (hp : PayloadDigestOk sha256 p0)
+    (ops : List (Op S.Key)) (k : S.Key) (hs : lastSigner ops = some k) (h : run S sha256 ops p0 = .ok p) (k' : S.Key) :
+    verifyWith S md5 sha1 sha256 k' p = .ok () ↔ k' = k :=
+  history_verify (legacyOk_of_algOk ha) hc hbind hb64 wf ok hp ops k hs h k'
+
+theorem history_verify_none_discharged {p0 p : Package} (ha : AlgOk S pubAlg) (wf : MetadataWF p0.md)
+    (ok : SigRecsOk S sha256 (writeHeader p0.md.header)) (hu : Unsigned p0.md.signature)
+    (ops : List (Op S.Key)) (hs : lastSigner ops = none) (h : run S sha256 ops p0 = .ok p) (k' : S.Key) :
+    verifyWith S md5 sha1 sha256 k' p ≠ .ok () := history_verify_none (legacyOk_of_algOk ha) wf ok hu ops hs h k'
+
+theorem history_keyids_discharged {p0 p : Package} (ha : AlgOk S pubAlg) (hi : S.IssuerOk) (hb64 : S.B64)
+    (wf : MetadataWF p0.md) (ok : SigRecsOk S sha256 (writeHeader p0.md.header))
+    (ops : List (Op S.Key)) (k : S.Key) (hs : lastSigner ops = some k) (h : run S sha256 ops p0 = .ok p) :
+    keyIds S p = .ok [S.keyId k] := history_keyids (legacyOk_of_algOk ha) hi hb64 wf ok ops k hs h
+
+/-- the legacy tag of a signed package is RPMSIGTAG_RSA or RPMSIGTAG_DSA and carries the last signer's raw signature -/
+theorem history_legacy_discharged {p0 p : Package} (ha : AlgOk S pubAlg) (wf : MetadataWF p0.md)
+    (ok : SigRecsOk S sha256 (writeHeader p0.md.header)) (ops : List (Op S.Key)) (k : S.Key) (t : Nat)
+    (hs : stateAfter .initial ops = .signed k t) (h : run S sha256 ops p0 = .ok p) :
+    getBinary p.md.signature (S.legacyTag k) = .ok (S.sign k (writeHeader p0.md.header) t) ∧
+    (S.legacyTag k = SigTag.RPMSIGTAG_RSA ∨ S.legacyTag k = SigTag.RPMSIGTAG_DSA) :=
+  ⟨history_legacy (legacyOk_of_algOk ha) wf ok ops k t hs h, legacyOk_of_algOk ha k⟩
+
+/-! … and for a `PgpScheme` neither `LegacyOk` nor `IssuerOk` nor `AlgOk` is assumed: what is left is that a written
+packet reads back (`ParseSeal`) and the cryptography (`Correct`, `Binds`), base64 (`B64`), sizes -/
+
+theorem pgp_history_verify (P : PgpScheme) {p0 p : Package} (hps : P.ParseSeal) (hc : P.toSigScheme.Correct)
+    (hbind : P.toSigScheme.Binds) (hb64 : P.toSigScheme.B64) (wf : MetadataWF p0.md)
+    (ok : SigRecsOk P.toSigScheme sha256 (writeHeader p0.md.header)) (hp : PayloadDigestOk sha256 p0)
+    (ops : List (OpF P.Key)) (hq : ∀ o ∈ ops, o.Quiet P.pubAlg) (k : P.Key)
+    (hs : lastSigner (effectiveOps ops) = some k)
+    (h : runF P.toSigScheme P.pubAlg sha256 ops p0 = .ok p) (k' : P.Key) :
+    verifyWith P.toSigScheme md5 sha1 sha256 k' p = .ok () ↔ k' = k :=
+  historyF_verify (P.algOk hps) hc hbind hb64 wf ok hp ops hq k hs h k'
+
+theorem pgp_history_keyids (P : PgpScheme) {p0 p : Package} (hps : P.ParseSeal) (hb64 : P.toSigScheme.B64)
+    (wf : MetadataWF p0.md) (ok : SigRecsOk P.toSigScheme sha256 (writeHeader p0.md.header))
+    (ops : List (OpF P.Key)) (hq : ∀ o ∈ ops, o.Quiet P.pubAlg) (k : P.Key)
+    (hs : lastSigner (effectiveOps ops) = some k)
+    (h : runF P.toSigScheme P.pubAlg sha256 ops p0 = .ok p) :
+    keyIds P.toSigScheme p = .ok [P.keyId k] :=
+  historyF_keyids (P.algOk hps) (P.issuerOk hps) hb64 wf ok ops hq k hs h
+
+end signing_side
+
 /-! ### non-vacuity: the symbolic scheme, toy hash functions, a concrete start package and history -/
 section nonvacuity
 open RpmVerif.Sign.Sym
@@ -414,6 +868,137 @@ example (p : Package) (h : run T tSha256 hist p0 = .ok p) : keyIds T p = .ok [[3
 example (p : Package) (h : run T tSha256 (hist.take 4) p0 = .ok p) (k' : UInt8) :
     verifyWith T tMd5 tSha1 tSha256 k' p ≠ .ok () :=
   history_verify_none (legacyOk ids) p0_wf p0_recs p0_unsigned (hist.take 4) (by decide) h k'
+
+
+/-! #### the signing side: non-vacuity -/
+section signing_side_nonvacuity
+open RpmVerif.Gen.SigAlgs RpmVerif.AddData
+
+-- the scraped tables, as they stand
+example : legacyTagOf 1 = some SigTag.RPMSIGTAG_RSA ∧ legacyTagOf 19 = some SigTag.RPMSIGTAG_DSA ∧
+    legacyTagOf 22 = some SigTag.RPMSIGTAG_DSA ∧ legacyTagOf 27 = some SigTag.RPMSIGTAG_DSA ∧ legacyTagOf 17 = none := by decide
+example : signerNew 22 = .ok .EdDSA ∧ signerNew 27 = .err "UnsupportedPGPKeyType" ∧ verifierLoad 27 = .ok .EdDSA ∧
+    verifierLoad 17 = .err "UnsupportedPGPKeyType" := by decide
+example : mkConfig .EdDSA [1] [2, 2] 5 = ⟨4, 0, 22, 8, [.created 5, .issuer [1], .fingerprint [2, 2]], []⟩ := by decide
+example : signerCreated 4294967295 = .ok 4294967295 := by decide
+-- chrono's range does end somewhere: the unwrap is not vacuously safe
+example : signerCreated 8210266876800 = .panic "timestamp_opt-unwrap" := by decide
+-- the symbolic scheme satisfies `AlgOk`, so every `_discharged` / `historyF_*` theorem applies to it
+example : AlgOk T Sym.pubAlg := algOk ids
+
+/-- a history with attempts that fail in every way: a refusing signer, a foreign signer whose bytes are no
+signature packet, between them real signings with a `u32`, a `SystemTime`, a `DateTime` and the wall clock -/
+def histF : List (OpF T.Key) :=
+  [.sign (.key (2 : UInt8)) (.src (.chrono ⟨⟨5, 999999999, by decide⟩, 3600⟩)), .sign (.failing "SignError") (.secs 9), .writeParse,
+   .sign (.raw [1, 2, 3]) (.src (.sys ⟨7, 0, by decide⟩)), .signNow (.key (0 : UInt8)) ⟨7, 5, by decide⟩,
+   .sign (.failing "KeyNotFoundError") (.secs 1), .signNow (.raw []) ⟨8, 0, by decide⟩]
+
+theorem histF_quiet : ∀ o ∈ histF, o.Quiet Sym.pubAlg := by
+  intro o ho
+  simp only [histF, List.mem_cons, List.not_mem_nil, or_false] at ho
+  rcases ho with rfl | rfl | rfl | rfl | rfl | rfl | rfl
+  · exact ⟨⟨5, by decide⟩, trivial⟩
+  · exact ⟨⟨9, rfl⟩, trivial⟩
+  · trivial
+  · exact ⟨⟨7, by decide⟩, .inl (by decide)⟩
+  · exact ⟨⟨7, by decide⟩, trivial⟩
+  · exact ⟨⟨1, rfl⟩, trivial⟩
+  · exact ⟨⟨8, by decide⟩, .inl (by decide)⟩
+
+theorem histF_effective : effectiveOps histF = ([.sign (2 : UInt8) 5, .writeParse, .sign (0 : UInt8) 7] : List (Op T.Key)) := by
+  simp only [histF, effectiveOps, List.filterMap_cons, List.filterMap_nil, OpF.effective]
+  rfl
+example : lastSigner (effectiveOps histF) = some (0 : UInt8) := by rw [histF_effective]; rfl
+example : runF T Sym.pubAlg tSha256 histF p0 = run T tSha256 ([.sign (2 : UInt8) 5, .writeParse, .sign (0 : UInt8) 7] : List (Op T.Key)) p0 := by
+  rw [← histF_effective]; exact runF_eq_run (algOk ids) histF histF_quiet p0
+example (p : Package) (h : runF T Sym.pubAlg tSha256 histF p0 = .ok p) (k' : UInt8) :
+    verifyWith T tMd5 tSha1 tSha256 k' p = .ok () ↔ k' = 0 :=
+  historyF_verify (algOk ids) (correct ids) (binds ids) (b64 ids) p0_wf p0_recs p0_payload histF histF_quiet (0 : UInt8)
+    (by rw [histF_effective]; rfl) h k'
+example (p : Package) (h : runF T Sym.pubAlg tSha256 histF p0 = .ok p) : keyIds T p = .ok [[0]] :=
+  historyF_keyids (algOk ids) (issuerOk ids) (b64 ids) p0_wf p0_recs histF histF_quiet (0 : UInt8)
+    (by rw [histF_effective]; rfl) h
+-- the state the history ends in is the one the plain history ends in (evaluated above: `observe (hist.take 3)`)
+example : runF T Sym.pubAlg tSha256 histF p0 = .ok (stateOf T tSha256 p0 (.signed (0 : UInt8) 7)) := by
+  rw [historyF_total (algOk ids) p0_wf p0_recs histF histF_quiet, histF_effective]; rfl
+
+-- failures leave the package alone: each `Err` class
+example : signOpE T Sym.pubAlg tSha256 ((SignerE.failing "SignError").sign T) (.secs 9) p0 = .err "SignError" := rfl
+example : signOpE T Sym.pubAlg tSha256 ((SignerE.raw [1, 2, 3]).sign T) (.secs 9) p0 = .err "NoSignatureFound" := by decide
+-- a foreign signer answering with a token that names a key of an algorithm `build` has no arm for
+example : signOpE T (fun _ => some 17) tSha256 ((SignerE.raw [1, 2, 3]).sign T) (.secs 9) p0 = .err "UnsupportedPGPKeyType" := by
+  decide
+example : settle p0 (signOpE T Sym.pubAlg tSha256 ((SignerE.raw [1, 2, 3]).sign T) (.secs 9) p0) = .ok p0 :=
+  (sign_fail_unchanged _ _ _ "NoSignatureFound" (by decide)).2
+
+-- the panic: before 1970 / after 2106 as `SystemTime` or `DateTime`, even when the signer would have refused
+example : ¬ C17.TsInRange (.src (.sys ⟨-1, 999999999, by decide⟩)) ∧ ¬ C17.TsInRange (.src (.chrono ⟨⟨4294967296, 0, by decide⟩, -3600⟩)) := by
+  constructor <;> simp [C17.TsInRange, Timestamp.Source.instant, Timestamp.Instant.floor]
+example : signOpE T Sym.pubAlg tSha256 ((SignerE.failing "SignError").sign T) (.src (.sys ⟨-1, 999999999, by decide⟩)) p0
+    = .panic "timestamp-unwrap-underflow" := rfl
+example : signNowE T Sym.pubAlg tSha256 ((SignerE.key (2 : UInt8)).sign T) ⟨4294967296, 0, by decide⟩ p0 = .panic "now-unwrap-overflow" := rfl
+example : (runF T Sym.pubAlg tSha256 (histF ++ .sign (.key (1 : UInt8)) (.src (.chrono ⟨⟨-1, 0, by decide⟩, 0⟩)) :: histF) p0).isPanic = true :=
+  runF_panics_at (algOk ids) p0_wf p0_recs histF histF_quiet _
+    (by simp [Panics, C17.TsInRange, Timestamp.Source.instant, Timestamp.Instant.floor]) histF
+
+/-! a `PgpScheme` satisfying `ParseSeal`, `Correct`, `Binds`, `B64`: tokens `S k 1…1 0 data` with the creation time in unary -/
+def toyP : PgpScheme where
+  Key := UInt8
+  decEq := inferInstance
+  alg := Sym.algOf
+  keyId := fun k => [k]
+  fingerprint := fun k => [k, k]
+  sealSig := fun k m c => 0x53 :: k :: (List.replicate (c.created.getD 0).toNat 1 ++ 0 :: m)
+  parse := fun s => match s with
+    | a :: k :: r => if a = 0x53 then some (mkConfig (Sym.algOf k) [k] [k, k] ((r.takeWhile (· == 1)).length : Nat)) else none
+    | _ => none
+  verify := fun k m s => match s with
+    | a :: k' :: r => a == 0x53 && k' == k && r.dropWhile (· == 1) == 0 :: m
+    | _ => false
+  b64enc := Sym.enc
+  b64dec := Sym.dec
+
+theorem takeWhile_ones (n : Nat) (m : Bytes) :
+    ((List.replicate n (1 : UInt8) ++ 0 :: m).takeWhile (· == 1)).length = n ∧
+    (List.replicate n (1 : UInt8) ++ 0 :: m).dropWhile (· == 1) = 0 :: m := by
+  induction n with
+  | zero => exact ⟨by simp, by simp⟩
+  | succ n ih =>
+    simp only [List.replicate_succ, List.cons_append, List.takeWhile, List.dropWhile, beq_self_eq_true, List.length_cons]
+    exact ⟨by omega, ih.2⟩
+
+theorem toyP_created (k : UInt8) (t : Nat) : ((toyP.configOf k t).created.getD 0).toNat = t := by
+  show ((mkConfig _ _ _ (t : Int)).created.getD 0).toNat = t
+  rw [mkConfig_created]; simp
+
+theorem toyP_parseSeal : toyP.ParseSeal := by
+  intro (k : UInt8) m t
+  show (if (0x53 : UInt8) = 0x53 then some (mkConfig (Sym.algOf k) [k] [k, k]
+    (((List.replicate ((toyP.configOf k t).created.getD 0).toNat (1 : UInt8) ++ 0 :: m).takeWhile (· == 1)).length : Nat)) else none) = _
+  rw [toyP_created, (takeWhile_ones t m).1]
+  rfl
+
+theorem toyP_correct : toyP.toSigScheme.Correct := by
+  intro (k : UInt8) m t
+  show ((0x53 : UInt8) == 0x53 && k == k &&
+    (List.replicate ((toyP.configOf k t).created.getD 0).toNat (1 : UInt8) ++ 0 :: m).dropWhile (· == 1) == 0 :: m) = true
+  rw [toyP_created, (takeWhile_ones t m).2]
+  simp
+
+theorem toyP_binds : toyP.toSigScheme.Binds := by
+  intro (k : UInt8) (k' : UInt8) m m' t h
+  have h' : ((0x53 : UInt8) == 0x53 && k == k' &&
+      (List.replicate ((toyP.configOf k t).created.getD 0).toNat (1 : UInt8) ++ 0 :: m).dropWhile (· == 1) == 0 :: m') = true := h
+  rw [toyP_created, (takeWhile_ones t m).2] at h'
+  simp only [beq_self_eq_true, Bool.true_and, Bool.and_eq_true, beq_iff_eq, List.cons.injEq, true_and] at h'
+  exact ⟨h'.1.symm, h'.2.symm⟩
+
+example : toyP.ParseSeal ∧ toyP.toSigScheme.Correct ∧ toyP.toSigScheme.Binds ∧ toyP.toSigScheme.B64 ∧
+    toyP.toSigScheme.IssuerOk ∧ toyP.toSigScheme.LegacyOk ∧ AlgOk toyP.toSigScheme toyP.pubAlg :=
+  ⟨toyP_parseSeal, toyP_correct, toyP_binds, b64 ids, pgp_issuerOk toyP toyP_parseSeal, pgp_legacyOk toyP, pgp_algOk toyP toyP_parseSeal⟩
+example : toyP.signerSign (2 : UInt8) [9] 3 = .ok [0x53, 2, 1, 1, 1, 0, 9] := by decide
+
+end signing_side_nonvacuity
 
 end nonvacuity
 
